@@ -246,6 +246,11 @@ func TestVX_C05(t *testing.T) {
 	for _, mp := range []string{"identity", "readme", "quant5", "compress"} {
 		for _, algo := range []string{"direct", "direct:10", "pid"} {
 			cfgs = append(cfgs, vxCfg{Kind: "hwmon", Min: -1, Max: -1, Map: mp, Algo: algo, StartPwm: 77, StartMode: 2})
+			if algo == "direct" {
+				// the fan was already in manual mode / had no control when fan2go took over
+				cfgs = append(cfgs, vxCfg{Kind: "hwmon", Min: -1, Max: -1, Map: mp, Algo: algo, StartPwm: 77, StartMode: 1})
+				cfgs = append(cfgs, vxCfg{Kind: "hwmon", Min: -1, Max: -1, Map: mp, Algo: algo, StartPwm: 77, StartMode: 0})
+			}
 			cfgs = append(cfgs, vxCfg{Kind: "hwmon", NeverStop: true, Min: 50, Max: 200, Map: mp, Algo: algo, StartPwm: 0, StartMode: 1})
 		}
 		cfgs = append(cfgs, vxCfg{Kind: "hwmon", Min: -1, Max: -1, Map: mp, Algo: "direct", StartPwm: 77, NoEnable: true})
